@@ -160,14 +160,23 @@ theorem stats_match_history (limit : Nat) (sl : Option Nat) (ops : List Op) :
 
 /-- **Answers and counts are those implied by the history under the eviction rule.**
 `Ref` (`Spec.lean`) is the reference cache written from the property text: entries in recency order;
-before a store, while `limit` or more entries are held, drop the expired entry with the smallest
-(deadline, store sequence number), else the least recently used one.  Without memory pressure
-(thread back-end, or a process-shared cache whose allocator never reports low memory) the concrete
-model of `mem_cache` gives, after every history, the same answer as the reference to every
-operation — every fetch result and the `stats` counts. -/
-theorem matches_reference (limit : Nat) (ops : List Op) (hq : ∀ o ∈ ops, o.quiet) (op : Op) (hqo : op.quiet) :
+before a store, while entries are held and (`limit` or more are held, or the allocator reports low
+memory) drop the expired entry with the smallest (deadline, store sequence number), else the least
+recently used one; a value that cannot be copied leaves the key absent; an allocation failure while
+inserting empties the cache.  For **every** history and **every** allocation outcome (`StoreEnv`:
+any `not_enough_memory()` answers, failing copies, `bad_alloc` inside) the concrete model of
+`mem_cache` gives the same answer as the reference to every operation — every fetch result and
+the `stats` counts — provided the entry-count cap `size > size_limit()` never fires (`refusedIn`;
+it cannot with the thread back-end, see `matches_reference_thread`). -/
+theorem matches_reference (limit : Nat) (sl : Option Nat) (ops : List Op) (op : Op)
+    (hnr : ∀ a o b, ops ++ [op] = a ++ o :: b → refusedIn (reach limit sl a) o = false) :
+    (step (reach limit sl ops) op).2 = ((refRun { limit := limit } ops).step op).2 := by
+  have h := sim_run (sim_init limit sl) ops (fun a o b e => hnr a o (b ++ [op]) (by rw [e]; simp))
+  exact (sim_step h op (hnr ops op [] rfl)).2
+
+theorem matches_reference_thread (limit : Nat) (ops : List Op) (op : Op) :
     (step (reach limit none ops) op).2 = ((refRun { limit := limit } ops).step op).2 :=
-  (sim_step (sim_run (sim_init limit) rfl ops hq) ((config_run _ ops).2.trans rfl) op hqo).2
+  matches_reference limit none ops op (fun a o _ _ => refusedIn_of_none ((config_run _ a).2.trans rfl) o)
 
 /-! ## non-vacuity -/
 
@@ -194,10 +203,10 @@ example : touched (reach 2 none (h₂.take 2)) (.fetch 1000 ka) = [ka] := by dec
 example : ((refRun { limit := 2 } h₂).step .stats).2 = .stats 2 2 ∧
     ((refRun { limit := 2 } h₂).step (.fetch 1000 kb)).2 = .miss ∧
     (refRun { limit := 2 } h₃).entries.map (·.key) = [kc, kb] := by decide
-example : ∀ o ∈ h₂, o.quiet := by
-  intro o h
-  simp only [h₂, List.mem_cons, List.not_mem_nil, or_false] at h
-  rcases h with h | h | h | h <;> subst h <;> simp [Op.quiet]
+-- under memory pressure too: the allocator reports low memory once, the LRU entry goes, on both sides
+example :
+    let h := [Op.store 1000 ka [1] [] 1100, .store 1000 kb [2] [] 1100, .store 1000 kc [3] [] 1100 none { lowMem := [true, false] }]
+    (refRun { limit := 0 } h).entries.map (·.key) = [kc, kb] ∧ (reach 0 (some 100) h).lru = [kc, kb] := by decide
 
 /-! ## buddy allocator: memory of freed blocks is released
 
@@ -231,6 +240,17 @@ theorem free_all_restores (usable : Nat) (ops : List BOp) (a : Arena)
   obtain ⟨hs, hn⟩ := Arena.run_spec hrun
   exact Arena.eq_of_skeleton_allFree hs (Arena.allFree_of_noUsed (hn (init_normal usable)) hnone)
     (initChunks_allFree 64 0 usable)
+
+/-- the cache's memory-pressure test looks at the allocator's largest free chunk (shape of
+`shmem_control::max_available()` read by the translator), not at the total free memory -/
+theorem max_available_is_max_free_chunk : Gen.maxAvailableIsMaxFreeChunk = true := rfl
+
+/-- memory-pressure eviction is bounded by the allocator's state: once a free block of at least
+10 % of the segment (plus header unit) exists, `not_enough_memory()` — modelled over the buddy
+arena with the generated fraction — is false and `check_limits` stops evicting for memory reasons -/
+theorem pressure_off_when_chunk_free {a : Buddy.Arena} {segment off b : Nat} (hm : (off, b) ∈ a.freeBlocks)
+    (hpos : 0 < segment / 10) (hb : segment / 10 ≤ 2 ^ b - Gen.alignment) : a.notEnoughMemory segment = false :=
+  Buddy.not_low_of_free_block hm hpos hb
 
 /-- the address `get_buddy` computes (`p_len ^ p_ptr`, generated expression) for a block of order `k`
 with even index is its right neighbour of the same order, for one with odd index its left neighbour:
@@ -269,6 +289,11 @@ example :
     ((Buddy.init 1000).run ops).map (·.usedBlocks) = some [] ∧
     ((Buddy.init 1000).run (ops.take 4)).map (·.freeBlocks) =
       some [(0, 6), (96, 5), (256, 8), (512, 8), (768, 7), (896, 6), (960, 5)] := by decide
+-- fragmentation: 176 bytes are free in total (> 10 % of a 1544-byte segment) but the largest chunk is 112: memory is low
+example :
+    let a := (Buddy.init 1000).run [.alloc 9 0, .alloc 8 512]
+    a.map (·.notEnoughMemory 1544) = some true ∧ a.map (·.totalFree) = some 176 ∧ a.map (·.maxFreeChunk) = some 112 := by decide
+example : (960, 5) ∈ (Buddy.init 1000).freeBlocks ∧ 0 < 100 / 10 ∧ 100 / 10 ≤ 2 ^ 5 - Gen.alignment := by decide
 example : Buddy.orderOf 1 = 5 ∧ Buddy.orderOf 16 = 5 ∧ Buddy.orderOf 17 = 6 ∧ Buddy.orderOf 2001 = 11 := by decide
 
 end Cppcms.C08.Props
